@@ -227,8 +227,43 @@ Proof.
       exists p. split; [reflexivity|]. cbn [f2_trees] in L. rewrite app_length in L. cbn in L. cbn [length]. lia.
 Qed.
 
+(* ---------- the plain `-` and `/` of the code never underflow / divide by zero ---------- *)
+Lemma usub_ok site a b : b <= a -> usub site a b = Ok (a - b).
+Proof. intros H. unfold usub. destruct (a <? b) eqn:E; [apply N.ltb_lt in E; lia|reflexivity]. Qed.
+
+Lemma udiv_ok site a b : b <> 0 -> udiv site a b = Ok (a / b).
+Proof. intros H. unfold udiv. destruct (b =? 0) eqn:E; [apply N.eqb_eq in E; contradiction|reflexivity]. Qed.
+
+(* Align::align with checked operators is the total function align_pos: `space - size` follows the
+   clamp of size to space, the divisor is the constant 2 *)
+Lemma align_chk_ok a size space : align_chk a size space = Ok (align_pos a size space).
+Proof.
+  unfold align_chk, align_pos. destruct a; try reflexivity.
+  - rewrite usub_ok by lia. cbn [bind]. now rewrite udiv_ok.
+  - now rewrite usub_ok by lia.
+  - destruct (0 <=? z)%Z; [reflexivity|]. now rewrite usub_ok by lia.
+Qed.
+
+Lemma flex_place_chk_ok d mn between : forall (l : list (lchild * ltree)) acc,
+  fold_left (flex_place_chk d mn between) l (Ok acc) = Ok (fold_left (flex_place d mn between) l acc).
+Proof.
+  induction l as [|[[[lay fl] al] t] l IH]; intros [placed off]; cbn [fold_left]; [reflexivity|].
+  unfold flex_place_chk at 2. cbn [bind fst snd]. rewrite align_chk_ok. cbn [bind].
+  unfold flex_place at 2.
+  destruct (from_axes d off (align_pos al (minor d (l_hh t) (l_ww t)) mn)) as [r c]. apply IH.
+Qed.
+
+(* the spacing of Justify: `children.len() - 1` only for two or more children, divisors 2,
+   len - 1 >= 1, len + 1, max(len, 1) *)
 Lemma flex_spaces_ok j unused n : exists sp, flex_spaces j unused n = Ok sp.
-Proof. unfold flex_spaces. destruct (unused =? 0); eauto. destruct j; eauto. Qed.
+Proof.
+  unfold flex_spaces. destruct (unused =? 0); eauto. destruct j; eauto.
+  - rewrite udiv_ok by lia. cbn; eauto.
+  - destruct (n <=? 1) eqn:E; eauto. apply N.leb_gt in E. rewrite usub_ok by lia. cbn [bind].
+    rewrite udiv_ok by lia. cbn; eauto.
+  - rewrite udiv_ok by lia. cbn [bind]. rewrite udiv_ok by lia. cbn; eauto.
+  - rewrite udiv_ok by lia. cbn; eauto.
+Qed.
 
 Lemma sumf_combine (cs : list lchild) (ts : list ltree) : sumf (map fst (combine cs ts)) <= sumf cs.
 Proof.
@@ -265,6 +300,7 @@ Proof.
   destruct Hp2 as (p2 & ->). cbn [bind].
   destruct (flex_spaces_ok j (major d (c_maxh c) (c_maxw c) - sat_addN (f1_nonflex p1) (f2_flex p2)) (N.of_nat (length cs)))
     as (sp & ->). cbn [bind].
+  rewrite flex_place_chk_ok. cbn [bind].
   destruct (fold_left _ _ _) as [placed off].
   destruct (from_axes d off (f2_minor p2)) as [h w].
   destruct (ct_clamp_ok c h w Hv) as (hw & -> & B). cbn [bind].
@@ -285,7 +321,7 @@ Proof.
   destruct Hch as (ch & -> & Bh). destruct Hcw as (cw & -> & Bw). cbn [bind].
   match goal with |- context [lay ?cc] => destruct (Hlay cc) as (t & ->) end.
   { split; cbn; [destruct (align_eqb av AExpand)|destruct (align_eqb ah AExpand)]; lia. }
-  cbn [bind].
+  cbn [bind]. rewrite !align_chk_ok. cbn [bind].
   assert (Hch' : exists x, (if align_eqb av AShrink
                             then clampN (sat_addN (sat_addN (l_hh t) (m_top m)) (m_bottom m)) (c_minh c) (c_maxh c)
                             else Ok ch) = Ok x /\ c_minh c <= x <= c_maxh c).
@@ -316,6 +352,7 @@ Proof.
     { destruct Hv. split; cbn; lia. }
     cbn. eauto.
   - destruct (from_axes d (major d (c_maxh c) (c_maxw c)) 1) as [h w].
+    rewrite usub_ok by lia. cbn [bind].
     destruct (from_axes d 0 _) as [r cc]. eauto.
   - destruct (IHv c Hv) as (t & ->). cbn. eauto.
   - eauto.
@@ -351,10 +388,12 @@ Proof.
     match goal with |- context [if ?b then _ else _] => destruct b end.
     + destruct (fold_left (flex_pass2 _ _ _) _ _) as [p2| | |]; try discriminate. cbn [bind].
       destruct (flex_spaces _ _ _) as [sp| | |]; try discriminate. cbn [bind].
+      rewrite flex_place_chk_ok. cbn [bind].
       destruct (fold_left _ _ _) as [placed off]. destruct (from_axes _ _ _) as [h w].
       destruct (ct_clamp c h w) as [hw| | |] eqn:E; try discriminate. cbn [bind]. intros [= <-].
       exact (ct_clamp_within _ _ _ _ E).
     + cbn [bind]. destruct (flex_spaces _ _ _) as [sp| | |]; try discriminate. cbn [bind].
+      rewrite flex_place_chk_ok. cbn [bind].
       destruct (fold_left _ _ _) as [placed off]. destruct (from_axes _ _ _) as [h w].
       destruct (ct_clamp c h w) as [hw| | |] eqn:E; try discriminate. cbn [bind]. intros [= <-].
       exact (ct_clamp_within _ _ _ _ E).
@@ -362,6 +401,7 @@ Proof.
     destruct (if sz_h =? 0 then _ else _) as [ch| | |] eqn:Ech; try discriminate. cbn [bind] in E.
     destruct (if sz_w =? 0 then _ else _) as [cw| | |] eqn:Ecw; try discriminate. cbn [bind] in E.
     destruct (layout vc v _) as [t0| | |]; try discriminate. cbn [bind] in E.
+    rewrite !align_chk_ok in E. cbn [bind] in E.
     destruct (if align_eqb av AShrink then _ else _) as [x| | |] eqn:Ex; try discriminate. cbn [bind] in E.
     destruct (if align_eqb ah AShrink then _ else _) as [y| | |] eqn:Ey; try discriminate. cbn [bind] in E.
     injection E as <-. split; cbn.
